@@ -17,7 +17,7 @@ Oracle: decode = Err([e]) with e the stated variant carrying x; for AVP faults t
 (rendering) every error variant with every payload value (10 variants x 65 536, InvalidVersion x 256, 15 without payload): to_string() returns and is non-empty; for IncompleteAVP(t), InvalidUtf8(t) and \
 AVPReadError(t) the set of AVP-kind names occurring as whole alphanumeric tokens equals {the name of the variant that attribute number t actually decodes to}, and for unassigned t the text contains the \
 decimal t and no kind name. Non-trivial = every injection and every rendering; distinct by hash of the faulty input / (variant, value).",
-    assumptions: &["AVP-kind names are taken from the Debug text of AVPs decoded by the crate's own dispatch, as the property states ('the kind this number actually decodes to')"],
+    assumptions: &["an AVP kind's name is the name of its enum variant (harness table by RFC number); which variant a number decodes to is observed by decoding, the variant being recognised at compile time, not through Debug text"],
     parts,
     run_tape,
     run_enum,
@@ -34,7 +34,19 @@ fn parts(t: Tier) -> Vec<Part> {
     vec![tape("injection", a, 1200), enumerate("rendering", 65536)]
 }
 
-/// (attribute number, Debug variant name) for every number the crate's dispatch decodes
+/// the crate's variant names, by RFC attribute number (the harness's own table; a variant is recognised at compile time
+/// by `from_crate`'s match, not through its Debug text)
+const KIND_NAME: [(u16, &str); 39] = [
+    (0, "MessageType"), (1, "ResultCode"), (2, "ProtocolVersion"), (3, "FramingCapabilities"), (4, "BearerCapabilities"), (5, "TieBreaker"),
+    (6, "FirmwareRevision"), (7, "HostName"), (8, "VendorName"), (9, "AssignedTunnelId"), (10, "ReceiveWindowSize"), (11, "Challenge"),
+    (12, "Q931CauseCode"), (13, "ChallengeResponse"), (14, "AssignedSessionId"), (15, "CallSerialNumber"), (16, "MinimumBps"), (17, "MaximumBps"),
+    (18, "BearerType"), (19, "FramingType"), (21, "CalledNumber"), (22, "CallingNumber"), (23, "SubAddress"), (24, "TxConnectSpeed"),
+    (25, "PhysicalChannelId"), (26, "InitialReceivedLcpConfReq"), (27, "LastSentLcpConfReq"), (28, "LastReceivedLcpConfReq"), (29, "ProxyAuthenType"),
+    (30, "ProxyAuthenName"), (31, "ProxyAuthenChallenge"), (32, "ProxyAuthenId"), (33, "ProxyAuthenResponse"), (34, "CallErrors"), (35, "Accm"),
+    (36, "RandomVector"), (37, "PrivateGroupId"), (38, "RxConnectSpeed"), (39, "SequencingRequired"),
+];
+
+/// (attribute number on the wire, name of the variant that number actually decodes to) for every number the crate's dispatch accepts
 fn kind_names() -> &'static Vec<(u16, String)> {
     static NAMES: OnceLock<Vec<(u16, String)>> = OnceLock::new();
     NAMES.get_or_init(|| {
@@ -48,18 +60,12 @@ fn kind_names() -> &'static Vec<(u16, String)> {
             let mut b = vec![0x01, (6 + p.len()) as u8, 0, 0];
             b.extend_from_slice(&t.to_be_bytes());
             b.extend_from_slice(&p);
-            let r = guard(|| {
-                let mut rd = rl2tp::common::SliceReader::from(&b[..]);
-                let l = rl2tp::avp::AVP::try_read_greedy(&mut rd);
-                match l.into_iter().next() {
-                    Some(Ok(a)) => Some(format!("{:?}", a)),
-                    _ => None,
-                }
-            });
-            if let Caught::Ok(Some(d)) = r {
-                let name: String = d.chars().take_while(|c| c.is_alphanumeric()).collect();
-                if !name.is_empty() {
-                    v.push((t, name));
+            if let Caught::Ok((l, _)) = crate_decode_avps(&b) {
+                if let Some(Ok(a)) = l.first() {
+                    // a.attr is the RFC number of the *variant* that was produced (matched by name in glue::from_crate)
+                    if let Some((_, n)) = KIND_NAME.iter().find(|(k, _)| *k == a.attr) {
+                        v.push((t, n.to_string()));
+                    }
                 }
             }
         }
